@@ -1,5 +1,5 @@
 """Symbolic harness for the ADF semantics procedures (C01-C05): one job = one procedure on one ADF family."""
-import json, random, itertools
+import os, json, random, itertools
 import z3
 from mirse.engine import *
 from mirse.hlib import *
@@ -162,6 +162,8 @@ def make_jobs(Job, procs, tier, seed, canary_proc, quick_n3=5, thorough_n3_1=12,
     xp = extra_params or {}
     fams3_1 = families(3, 1, rng, quick_n3 if tier == 'quick' else thorough_n3_1, must=must3)
     fams3_2 = families(3, 2, rng, 0 if tier == 'quick' else thorough_n3_2)
+    if os.environ.get('VERIF_FAM'):      # developer: one more family, e.g. VERIF_FAM='["sym",[0,1,1,0,0,1,1,0],"sym"]'
+        f = json.loads(os.environ['VERIF_FAM']); (fams3_1 if sum(1 for x in f if x == 'sym') <= 1 else fams3_2).append(f)
     fams4_1 = families(4, 1, rng, 0 if tier == 'quick' else 1)
     for proc in procs:
         pp = dict(xp.get(proc, {}))
